@@ -27,6 +27,12 @@ CHECKS = {
  "C15": ("exploration", "acctworld", "model-based stateful PBT (Hypothesis): generated context/capacity/operation programs vs a documented-semantics model of buffer size and capacity, checked after every step",
          "Generated programs over 2-4 files with nested contexts, capacity arguments and set_buffer_capacity incl. capacities below one document; after every step size == model, size <= capacity, size == 0 outside contexts, capacity == model stack, and every file without pending buffered modifications is current on disk.",
          "type-stable value alphabet; under an overflow the model admits 'all flushed' or 'only the accessed file re-entered' (operations load a varying number of times) and adopts the observed one", "3 C15"),
+ "C11": ("exploration", "c11-product", "exhaustive enumeration of the finite (entry point x target x invalid item x embedding x class) product plus Hypothesis random embeddings; oracle = exception family + forbidden-item walk of memory and backend",
+         "The whole finite product (about 50k cases) is enumerated in both tiers ('exhaustive': true for that product) and extended by random deeper embeddings; each case checks the exception family, walks the in-memory node tree and the independently read resource for any forbidden item, and for single-element entry points demands byte-identical backend and unchanged memory.",
+         "forbidden set per family as listed in the evidence assumptions; public API cross-checked by introspection (unknown public attribute = harness error)", "3 C11"),
+ "C12": ("exploration", "c12-roundtrip", "round-trip PBT: exhaustive small value domain + Hypothesis JSON values + boundary list through every entry point, read back through a fresh object with a leaf-type-exact comparison",
+         "Every value is stored through every entry point at four target depths over an empty or an existing (==-colliding) prior value, then read through a fresh collection object and from the raw resource; equality and JSON leaf types must match exactly.",
+         "NaN/inf/lone surrogates excluded; MongoDB ints <= 64 bit; fakes for Redis/MongoDB/Zarr", "3 C12"),
 }
 
 def main():
@@ -60,6 +66,8 @@ def main():
             {"name": "bufworld", "path": "vf/bufworld.py", "serves_properties": ["C05", "C06"], "kind_free_text": "world + buffered-context steps and file-frozen invariants"},
             {"name": "acctworld", "path": "vf/acctworld.py", "serves_properties": ["C15"], "kind_free_text": "bufworld + buffer size/capacity model"},
             {"name": "c07-scenarios", "path": "vf/props/c07.py", "serves_properties": ["C07"], "kind_free_text": "scenario generator/enumerator with an outside writer"},
+            {"name": "c11-product", "path": "vf/props/c11.py", "serves_properties": ["C11"], "kind_free_text": "finite product enumerator"},
+            {"name": "c12-roundtrip", "path": "vf/props/c12.py", "serves_properties": ["C12"], "kind_free_text": "value round-trip through a fresh object"},
             {"name": "world", "path": "vf/world.py", "serves_properties": ["C01", "C02", "C03", "C04"], "kind_free_text": "interpreter of generated step lists against the library and a plain dict/list model (Hypothesis-driven), with replay and minimisation"},
         ],
         "checks": checks,
